@@ -49,6 +49,17 @@ Theorem C04_report_relative : forall pb pe b e m, pb <= b -> b <= e -> e <= pe -
   /\ selection_ts (pb, pe) off = Ok (b, e).
 Proof. exact relative_offset_spec. Qed.
 
+(* and nothing is reported for a selection that does not lie inside the other one, in any mode
+   (before it, after it, overlapping either side, enclosing it) *)
+Theorem C04_report_relative_none : forall b e pb pe m, b <= e -> pb <= pe -> ~ (pb <= b /\ e <= pe) ->
+  relative_offset (b, e) (pb, pe) m = None.
+Proof.
+  intros b e pb pe m H1 H2 Hn. unfold relative_offset, relative_begin, relative_end, relative_begin_endaligned, relative_end_endaligned.
+  cbn [fst snd].
+  destruct (pb <=? b) eqn:E1; destruct (e <=? pe) eqn:E2; destruct (pb <=? e) eqn:E3; cbn [andb]; destruct m; try reflexivity;
+    exfalso; apply Hn; apply Nat.leb_le in E1; apply Nat.leb_le in E2; split; assumption.
+Qed.
+
 (* the premises "fst p <= snd p", "snd p <= len" of the theorems above hold for every text selection
    of every store any history of operations can build: what an accepted offset denotes lies inside
    what it is relative to at every nesting depth of annotation-relative offsets, and nothing else
